@@ -104,7 +104,9 @@ func sigWidthClass(pub crypto.PublicKey, sig []byte) string {
 func run(c *vf.Ctx) {
 	c.Rule("grid point = (account key incl. coordinate-width class, signer variant incl. wanted R/S width class, payload class, jwk or kid class, nonce class, url class); " +
 		"distinct non-trivial = distinct (alg, key class, OBSERVED R/S width class, payload, form, nonce class, url class) whose JWS was verified by the reference; " +
-		"client part: one case per (account key, operation) whose captured POST body was verified")
+		"client part: one case per (account key, operation) whose captured POST body was verified; " +
+		"part H: payload of EVERY length 0..130 and 2^k+{-1,0,1} (k=8..16, thorough ..20) as string claim set and inside a struct x {RS256, ES256, ES384, ES512, RSA-2040, RSA-2056} x {jwk, kid}, url/kid/nonce lengths 0..12 past a prefix; " +
+		"MAC keys with a special octet {NUL,TAB,LF,VT,FF,CR,SP,0x85,0xA0,0xFF,'=','\"'} first/last/both x key length {1,2,32,64,65}, MAC payload lengths as above; arguments unchanged by the calls, second call with the same objects identical")
 	c.Assume("crypto/rsa, crypto/ecdsa (verification), crypto/ecdh (scalar multiplication for the key/nonce search), crypto/sha256/512, encoding/json, math/big are trusted")
 	c.Assume("values (scalars, payload bytes, MAC keys) come from a fixed alphabet plus the seed; the statement is about every enumerated shape, not every key")
 
@@ -154,6 +156,7 @@ func run(c *vf.Ctx) {
 	partThumbprint(c, signers)
 	partGrid(c, signers)
 	partEAB(c, signers)
+	partHarden(c, signers)
 	partClient(c, signers, rsaKeys)
 }
 
